@@ -28,6 +28,8 @@ type PEConfig struct {
 	BindVal func(v ssa.Value) (constant.Value, bool)
 	// StopAt ends a path when it reaches an instruction (label != "").
 	StopAt func(in ssa.Instruction) string
+	// StopAfter ends a path right after executing an instruction (label != "").
+	StopAfter func(in ssa.Instruction) string
 	// Opaque lists in-package callees that are not inlined (their result is unknown).
 	Opaque   map[*ssa.Function]bool
 	MaxDepth int
@@ -277,6 +279,12 @@ func (pe *pEval) run(fn *ssa.Function, st *peState, depth int, done func(s *peSt
 						s.fields[f] = pe.get(s, x.Val)
 						s.known[f] = true
 						s.stored[f] = true
+					}
+					if pe.cfg.StopAfter != nil {
+						if l := pe.cfg.StopAfter(in); l != "" {
+							done(s, l, nil)
+							break blocks
+						}
 					}
 				case *ssa.Extract:
 					if tv, ok := pe.tuple(s, x.Tuple); ok && x.Index < len(tv) && tv[x.Index] != nil {
